@@ -20,7 +20,8 @@ ASSUME TLCSet(5, 0)
 
 Limb(x) == IF Len(x) = 1 THEN x[1] ELSE x[1] + 65536 * x[2]
 
-DcName(x) == CASE x = "none" -> "None" [] x = "dc32" -> "Bits32" [] x = "dc64" -> "Bits64" [] OTHER -> "?"
+DcName(x) == CASE x = "none" -> "None" [] x = "dc32" -> "Bits32" [] x = "dc64" -> "Bits64"
+                 [] x \in {"ref32", "ref64"} -> "RefOnly" [] OTHER -> "?"
 
 TInit ==
     \E i \in 1..Len(Rec) :
@@ -52,6 +53,9 @@ MonitorErrors(r) ==
     IN (IF r.result \in {"panic", "hang", "budget"} THEN {<<"NotTotal", r.result>>} ELSE {})
        \cup (IF n > c.max_subdevices /\ r.result = "ok" THEN {<<"SilentTruncation", n, c.max_subdevices>>} ELSE {})
        \cup (IF n = 0 /\ ~(r.result = "ok" /\ AllObs(r) = <<>>) THEN {<<"EmptyNetwork", r.result>>} ELSE {})
+       \* a network that fits the declared capacity is not refused for lack of capacity
+       \cup (IF n <= c.max_subdevices /\ r.result = "err:Capacity" /\ c.filter # "error_at"
+             THEN {<<"FitsButRefused", n, c.max_subdevices>>} ELSE {})
        \cup (IF r.result = "ok" /\ n <= c.max_subdevices
              THEN LET obs == AllObs(r) IN
                   (IF Len(obs) # n THEN {<<"CountWrong", Len(obs), n>>} ELSE {})
